@@ -101,7 +101,10 @@ class C09(Prop):
         if s.env is None or not s.obs:
             return r
         steps = [o for o in s.obs if o["op"][0] != "reset"]
-        if any(o.get("nlv") is not None and 0 < abs(o["nlv"]) < Fraction(1, 10**6) for o in s.obs):
+        if any(o.get("nlv") is not None and abs(o["nlv"]) < Fraction(1, 10**6) and (o["nlv"] != 0 or not case.get("_exact_zero"))
+               for o in s.obs):
+            # (a double NLV of exactly 0.0 outside the exact family is a rounding accident too: the rational NLV of
+            # the same inputs is a tiny non-zero number)
             # NLV within rounding distance of zero: which side of the `<= 0` test the doubles land on is not
             # decided by the logic (exactly-zero NLV is covered by the dyadic corpus case)
             r.skipped = "NLV within rounding distance of zero"
